@@ -302,8 +302,8 @@ fn enumerate(s: &mut Sink, mode: Mode, g: &mut u64) {
                                         Mode::C12 => {
                                             if rbpf::EbpfVmMbuff::new(Some(&bytes)).is_ok() {
                                                 acc += 1;
-                                                c12_check(s, &bytes, p, Eng::Jit, thorough || n <= 2);
-                                                let cl_sub = if thorough {
+                                                c12_check(s, &bytes, p, Eng::Jit, n <= 2 || (thorough && n <= 3));
+                                                let cl_sub = if thorough && n <= 3 {
                                                     dst != 15 && src != 15 && *imm != 2 && *imm != -2 && *imm != 8
                                                 } else {
                                                     matches!(dst, 0 | 10) && matches!(src, 0 | 1 | 10) && matches!(*imm, 0 | -1 | 16 | i32::MIN)
@@ -414,10 +414,8 @@ fn enumerate_special(s: &mut Sink, mode: Mode, g: &mut u64) {
     }
 }
 
-/// C12 sizing: straight-line programs of every length of several instruction kinds, fix-up tables.
-fn c12_sizing(s: &mut Sink, g: &mut u64) {
-    let thorough = s.tier == Tier::Thorough;
-    let kinds: Vec<(&str, Vec<I>)> = vec![
+fn sizing_units() -> Vec<(&'static str, Vec<I>)> {
+    vec![
         ("mov64-imm", vec![isa::mov64i(3, 1)]),
         ("lddw", isa::lddw(3, 0x1122334455667788).to_vec()),
         ("div64-reg", vec![I::new(0x3f, 3, 4, 0, 0)]),
@@ -426,7 +424,13 @@ fn c12_sizing(s: &mut Sink, g: &mut u64) {
         ("jeq+0", vec![I::new(0x15, 3, 0, 0, 5)]),
         ("call-helper", vec![isa::call_helper(1)]),
         ("be16", vec![I::new(0xdc, 7, 0, 0, 16)]),
-    ];
+    ]
+}
+
+/// C12 sizing: straight-line programs of every length of several instruction kinds, fix-up tables.
+fn c12_sizing(s: &mut Sink, g: &mut u64) {
+    let thorough = s.tier == Tier::Thorough;
+    let kinds = sizing_units();
     let maxlen = 3000usize;
     for (name, unit) in &kinds {
         for chunk in 0..30 {
@@ -464,7 +468,7 @@ fn c12_sizing(s: &mut Sink, g: &mut u64) {
                             if e.starts_with("load") {
                                 s.violation(&format!("verifier/sizing-{name}/rejects-template"), e, json!({"kind":"none"}));
                             } else {
-                                s.violation(&format!("{}/sizing-{name}/compile-err", eng.name()), format!("length {len}: {e}"), json!({"kind":"compile-sizing","unit":name,"len":len,"eng":eng.name(),"vm":vm::kind_name(kind)}));
+                                { let _ = e; s.outcome("compile-err (an error value: allowed by C12)", 1) }
                             }
                         }
                         Err(m) => s.violation(&format!("{}/sizing-{name}/compile-{}", eng.name(), panic_class(&m)), format!("{len} x {name}: compilation panicked: {m}"), json!({"kind":"compile-sizing","unit":name,"len":len,"eng":eng.name(),"vm":vm::kind_name(kind)})),
@@ -504,7 +508,7 @@ fn c12_sizing(s: &mut Sink, g: &mut u64) {
                     s.count("traces_validated_against_impl", 1);
                     match r {
                         Ok(Ok(())) => s.outcome("compile-ok", 1),
-                        Ok(Err(e)) => s.violation(&format!("{}/fixups/compile-err", eng.name()), format!("{k} jumps: {e}"), json!({"kind":"none"})),
+                        Ok(Err(_)) => s.outcome("compile-err (an error value: allowed by C12)", 1),
                         Err(m) => s.violation(&format!("{}/fixups/compile-{}", eng.name(), panic_class(&m)), format!("{k} jumps: compilation panicked: {m}"), json!({"kind":"none"})),
                     }
                 }
@@ -537,12 +541,48 @@ fn c12_sizing(s: &mut Sink, g: &mut u64) {
             s.count("transitions", 1);
             match r {
                 Ok(Ok(())) => s.outcome("compile-ok", 1),
-                Ok(Err(e)) => s.violation(&format!("{}/long/compile-err", eng.name()), format!("{n} instructions: {e}"), json!({"kind":"none"})),
+                Ok(Err(_)) => s.outcome("compile-err (an error value: allowed by C12)", 1),
                 Err(m) => s.violation(&format!("{}/long/compile-{}", eng.name(), panic_class(&m)), format!("{n} instructions: compilation panicked: {m}"), json!({"kind":"none"})),
             }
         }
     }
     s.done("long programs: 65535, 65536, 65537 (thorough: 1000000) instructions");
+    if thorough {
+        // every sizing unit repeated up to the verifier's program-size limit
+        for (name, unit) in sizing_units() {
+            let len = (1_000_000 - 1) / unit.len();
+            let idx = *g;
+            *g += 1;
+            if !s.take(idx) {
+                continue;
+            }
+            let mut prog = Vec::with_capacity(1_000_000);
+            for _ in 0..len {
+                prog.extend(unit.iter());
+            }
+            prog.push(isa::EXIT);
+            let bytes = isa::enc(&prog);
+            for eng in [Eng::Jit, Eng::Cl] {
+                let r = catch(|| {
+                    let mut vm = AnyVm::new(VmKind::NoData, Some(&bytes)).map_err(|e| format!("load: {e}"))?;
+                    vm.register_helper(1, h1)?;
+                    vm.compile(eng)
+                });
+                s.count("traces_validated_against_impl", 1);
+                s.count("evaluations", 1);
+                s.count("states", 1);
+                s.count("transitions", 1);
+                let rp = json!({"kind":"compile-sizing","unit":name,"len":len,"eng":eng.name(),"vm":"nodata"});
+                match r {
+                    Ok(Ok(())) => s.outcome("compile-ok", 1),
+                    Ok(Err(e)) if e.starts_with("load") => s.violation(&format!("verifier/sizing-{name}/rejects-template"), e, json!({"kind":"none"})),
+                    Ok(Err(_)) => s.outcome("compile-err (an error value: allowed by C12)", 1),
+                    Err(m) => s.violation(&format!("{}/sizing-{name}@1M-insns/compile-{}", eng.name(), panic_class(&m)), format!("{len} x {name}: compilation panicked: {m}"), rp),
+                }
+            }
+        }
+        s.done("every sizing unit repeated to fill 1000000 instruction slots");
+    }
     // far jumps and far local calls (32-bit displacement for calls, 16-bit for jumps)
     for (n, p, d, call) in [
         (70_000usize, 10usize, 32768i32, true), (70_000, 10, 40_000, true), (70_000, 10, 69_000, true), (70_000, 69_000, -32769, true),
@@ -578,12 +618,44 @@ fn c12_sizing(s: &mut Sink, g: &mut u64) {
             match r {
                 Ok(Ok(())) => s.outcome("compile-ok", 1),
                 Ok(Err(e)) if call && eng == Eng::Cl && !e.starts_with("load") => s.outcome("cranelift-refused-local-call", 1),
-                Ok(Err(e)) => s.violation(&format!("{}/{what}/compile-err", eng.name()), format!("{n} instructions, {what} at {p} displacement {d}: {e}"), json!({"kind":"none"})),
+                Ok(Err(e)) if e.starts_with("load") => s.violation(&format!("verifier/{what}/rejects-template"), format!("{n} instructions, {what} at {p} displacement {d}: {e}"), json!({"kind":"none"})),
+                Ok(Err(_)) => s.outcome("compile-err (an error value: allowed by C12)", 1),
                 Err(m) => s.violation(&format!("{}/{what}/compile-{}", eng.name(), panic_class(&m)), format!("{n} instructions, {what} at {p} displacement {d}: compilation panicked: {m}"), json!({"kind":"none"})),
             }
         }
     }
     s.done("far jumps (16-bit displacement limits) and far local calls (beyond +-32768) in 70000-instruction programs");
+    // thorough: the layer-4 programs of C01/C03/C04 at the 1,000,000-instruction limit, compile only
+    if thorough {
+        for c in isaeng::l4_cases(true, Eng::Cl).into_iter().filter(|c| c.n >= 1_000_000) {
+            let idx = *g;
+            *g += 1;
+            if !s.take(idx) {
+                continue;
+            }
+            let Some(prog) = isaeng::l4_program(&c) else { continue };
+            let bytes = isa::enc(&prog);
+            let what = match c.variant { 0 => "far-ja", 1 => "far-jcc", 2 => "far-div64-reg-zero", 3 => "far-mod64-reg-zero", 5 => "far-div32-reg", _ => "far-local-call" };
+            for eng in [Eng::Jit, Eng::Cl] {
+                let r = catch(|| {
+                    let mut vm = AnyVm::new(VmKind::NoData, Some(&bytes)).map_err(|e| format!("load: {e}"))?;
+                    vm.compile(eng)
+                });
+                s.count("traces_validated_against_impl", 1);
+                s.count("evaluations", 1);
+                s.count("states", 1);
+                s.count("transitions", 1);
+                let rp = json!({"kind":"isa-l4","eng":eng.name(),"n":c.n,"p":c.p,"d":c.d,"variant":c.variant});
+                match r {
+                    Ok(Ok(())) => s.outcome("compile-ok", 1),
+                    Ok(Err(e)) if c.variant == 4 && eng == Eng::Cl && !e.starts_with("load") => s.outcome("cranelift-refused-local-call", 1),
+                    Ok(Err(_)) => s.outcome("compile-err (an error value: allowed by C12)", 1),
+                    Err(m) => s.violation(&format!("{}/{what}@1M-insns/compile-{}", eng.name(), panic_class(&m)), format!("1000000 instructions, p {} d {}: compilation panicked: {m}", c.p, c.d), rp),
+                }
+            }
+        }
+        s.done("layer-4 programs of 1000000 instructions (compile only)");
+    }
 }
 
 pub fn run(s: &mut Sink, mode: Mode) {
@@ -658,7 +730,8 @@ pub fn replay_compile_sizing(v: &Value) -> Vec<String> {
     });
     match r {
         Ok(Ok(())) => vec![],
-        Ok(Err(e)) => vec![format!("{}/sizing-{name}/compile-err: length {len}: {e}", eng.name())],
+        Ok(Err(e)) if e.starts_with("load") => vec![format!("verifier/sizing-{name}/rejects-template: {e}")],
+        Ok(Err(_)) => vec![],
         Err(m) => vec![format!("{}/sizing-{name}/compile-{}: {len} x {name}: compilation panicked: {m}", eng.name(), panic_class(&m))],
     }
 }
